@@ -269,6 +269,44 @@ pub fn paren_sites(root: &SyntaxNode) -> Vec<NodeRef> {
         .collect()
 }
 
+/// Pattern nodes that can take (more) redundant parentheses: closure parameters, `let` / `for` patterns, items of a
+/// destructuring. `((a, b)) => ..` destructures its single parameter; `(((a, b))) => ..` still does.
+pub fn pattern_paren_sites(root: &SyntaxNode) -> Vec<NodeRef> {
+    let mut out = vec![];
+    fn rec(n: &SyntaxNode, off: usize, out: &mut Vec<NodeRef>) {
+        let k = n.kind();
+        let mut o = off;
+        let mut seen_binding_kw = false;
+        for c in n.children() {
+            let ck = c.kind();
+            let is_pat = matches!(ck, K::Ident | K::Destructuring | K::Parenthesized | K::Underscore);
+            let site = match k {
+                K::Params | K::Destructuring => is_pat,
+                // the pattern of `let p = ..` / `for p in ..` is the first pattern-like child after the keyword
+                K::LetBinding | K::ForLoop => {
+                    let first = is_pat && seen_binding_kw;
+                    if matches!(ck, K::Let | K::For) {
+                        seen_binding_kw = true;
+                    } else if !matches!(ck, K::Space | K::LineComment | K::BlockComment) {
+                        seen_binding_kw = false;
+                    }
+                    first
+                }
+                // `x => ..`: the lone parameter
+                K::Closure => false,
+                _ => false,
+            };
+            if site && c.len() > 0 {
+                out.push(NodeRef { kind: ck, start: o, end: o + c.len(), mode: Mode::Code, parent: k, hashed: false });
+            }
+            rec(c, o, out);
+            o += c.len();
+        }
+    }
+    rec(root, 0, &mut out);
+    out
+}
+
 pub const PAREN_VARIANTS: usize = 4;
 pub fn mutate_paren(base: &str, site: &NodeRef, variant: usize) -> String {
     let inner = &base[site.start..site.end];
@@ -393,6 +431,33 @@ pub fn mutate_uni(base: &str, root: &SyntaxNode, i: usize, which: usize) -> Opti
     }
     let at = l.start + off;
     Some(format!("{}{}{}", &base[..at], UNI_SAMPLES[which % UNI_SAMPLES.len()], &base[at..]))
+}
+
+/// M-BLANK: blanks that are *text* for Typst's markup lexer (only space, tab and the newline characters are `Space` there):
+/// no-break space, thin space, narrow no-break space, ideographic space, em space, medium mathematical space, ogham space mark.
+pub const EXOTIC_BLANKS: [&str; 7] = ["\u{00A0}", "\u{2009}", "\u{202F}", "\u{3000}", "\u{2003}", "\u{205F}", "\u{1680}"];
+pub const BLANK_VARIANTS: usize = 14;
+
+/// Text leaves of markup with at least one inner ASCII space or a neighbour on the same line.
+pub fn blank_targets(root: &SyntaxNode) -> Vec<(usize, usize)> {
+    tree::leaves(root).iter().filter(|l| l.kind() == K::Text && l.node.len() >= 3).map(|l| (l.start, l.end())).collect()
+}
+
+/// variant < 7: the first ASCII space inside the text token is replaced by the blank (`10 km de long` -> `10<NBSP>km de long`);
+/// variant >= 7: the blank is inserted after the first character (`hello world` -> `h<NBSP>ello world`).
+pub fn mutate_blank(base: &str, target: (usize, usize), variant: usize) -> Option<String> {
+    let b = EXOTIC_BLANKS[variant % EXOTIC_BLANKS.len()];
+    let txt = &base[target.0..target.1];
+    if variant < EXOTIC_BLANKS.len() {
+        let i = txt.find(' ')?;
+        Some(format!("{}{}{}", &base[..target.0 + i], b, &base[target.0 + i + 1..]))
+    } else {
+        let mut off = 1;
+        while !txt.is_char_boundary(off) {
+            off += 1;
+        }
+        Some(format!("{}{}{}", &base[..target.0 + off], b, &base[target.0 + off..]))
+    }
 }
 
 pub fn uni_target_count(root: &SyntaxNode) -> usize {
